@@ -2,4 +2,9 @@
 
 package all
 
-import _ "verif/harness/internal/props/c04"
+import (
+	"verif/harness/internal/props/c04"
+	c04my "verif/harness/internal/props/c04/mysql"
+)
+
+func init() { c04.MySQLLayer = c04my.Layer }
